@@ -545,6 +545,11 @@ func normText(t *Term) *Term {
 		if textual {
 			return args[0]
 		}
+	case t.Op == "call" && t.Name == "builtin:append" && len(args) == 2 && args[0].Op == "const" && strings.HasPrefix(args[0].Name, "nil"):
+		// append([]byte(nil), text...): a private copy of the same text
+		return args[1]
+	case t.Op == "call" && (t.Name == "strings.Clone" || t.Name == "bytes.Clone") && len(args) == 1:
+		return args[0]
 	case t.Op == "call" && strings.HasPrefix(t.Name, "bytes.") && textTwins[t.Name[len("bytes."):]]:
 		return &Term{Op: "call", Name: "strings." + t.Name[len("bytes."):], Args: args, V: t.V}
 	case t.Op == "call" && t.Name == "bytes.Equal" && len(args) == 2:
